@@ -37,6 +37,7 @@ type Exec struct {
 	nfresh    int
 	afterCovers map[string]int
 	izGhosts    []string
+	atcallApplied map[string]bool
 	genCtr    int
 	obligs    []*Oblig
 	notes     map[string]bool
